@@ -307,15 +307,15 @@ pub proof fn axiom_cow_str()
 // TRUSTED: A-std -- a str is determined by its characters (needed because Verus compiles a string-literal pattern `Some("worksheets")`
 // into an equality test between `&str` values, while contracts speak of character sequences)
 #[verifier::external_body]
-pub proof fn axiom_str_ext()
-    ensures forall|a: &str, b: &str| #[trigger] a@ == #[trigger] b@ ==> a == b,
+pub proof fn axiom_str_ext(lit: &str)
+    ensures forall|a: &str| #[trigger] a@ == lit@ ==> a == lit,
 {}
 
 // ---- the relationship table (xl/_rels/workbook.bin.rels): relationship Id (UTF-8 bytes) -> Target
 /// target registered under the Id whose UTF-8 bytes are `key`
 pub open spec fn rel_lookup(m: Map<Vec<u8>, String>, key: Seq<u8>) -> Option<Seq<char>> {
-    if exists|k: Vec<u8>| m.contains_key(k) && k@ == key {
-        Some(m[choose|k: Vec<u8>| m.contains_key(k) && k@ == key]@)
+    if exists|k: Vec<u8>| #[trigger] m.contains_key(k) && k@ == key {
+        Some(m[choose|k: Vec<u8>| #[trigger] m.contains_key(k) && k@ == key]@)
     } else { None }
 }
 // TRUSTED: the body is the real expression `relationships[relid.as_bytes()]` moved into a function: vstd gives `Index` of BTreeMap no
@@ -436,14 +436,251 @@ proof fn lemma_wb1_step(s: Seq<u8>, st: WbSt, rels: Map<Vec<u8>, String>)
 /// the reader's two sheet lists show the declared sheets ds, in order: name, kind, visibility (metadata) and name, part path
 pub open spec fn sheets_ok(ms: Seq<Sheet>, ss: Seq<(String, String)>, ds: Seq<SheetDecl>) -> bool {
     ms.len() == ds.len() && ss.len() == ds.len()
-    && forall|i: int| 0 <= i < ds.len() ==> (#[trigger] ms[i]).name@ == ds[i].name && ms[i].typ == ds[i].typ && ms[i].visible == ds[i].visible
-        && (#[trigger] ss[i]).0@ == ds[i].name && ss[i].1@ == ds[i].path
+    && (forall|i: int| 0 <= i < ds.len() ==> (#[trigger] ms[i]).name@ == ds[i].name && ms[i].typ == ds[i].typ && ms[i].visible == ds[i].visible)
+    && (forall|i: int| 0 <= i < ds.len() ==> (#[trigger] ss[i]).0@ == ds[i].name && ss[i].1@ == ds[i].path)
 }
 pub open spec fn wb_path() -> Seq<char> { "xl/workbook.bin"@ }
+pub open spec fn decl_names(ds: Seq<SheetDecl>) -> Seq<Seq<char>> { ds.map_values(|d: SheetDecl| d.name) }
 proof fn lemma_bit0(b: u8)
     ensures ((b & 0x1) != 0) == (b % 2 == 1),
 {
     assert(((b & 0x1) != 0) == (b % 2 == 1)) by (bit_vector);
+}
+
+
+/// le32 looks at the first four bytes only
+proof fn lemma_le32_sub(p: Seq<u8>, a: int, b: int)
+    requires 0 <= a, a + 4 <= b <= p.len(),
+    ensures le32(p.subrange(a, b)) == le32(p.subrange(a, a + 4)),
+{
+    let x = p.subrange(a, b); let y = p.subrange(a, a + 4);
+    assert(x[0] == y[0] && x[1] == y[1] && x[2] == y[2] && x[3] == y[3]);
+}
+/// what `wide_str(&buf[off..len])` sees is the XLWideString at offset off of the payload
+proof fn lemma_ws_sub(p: Seq<u8>, off: int, sub: Seq<u8>)
+    requires 0 <= off, off + 4 <= p.len(), sub == p.subrange(off, p.len() as int),
+    ensures
+        le32(sub) == le32(p.subrange(off, off + 4)),
+        (sub.len() >= 4 + 2 * le32(sub)) == ws_ok(p, off),
+        ws_ok(p, off) ==> sub.subrange(4, 4 + 2 * le32(sub)) == p.subrange(off + 4, ws_end(p, off)),
+{
+    lemma_le32_sub(p, off, p.len() as int);
+    if ws_ok(p, off) {
+        assert(sub.subrange(4, 4 + 2 * le32(sub)) =~= p.subrange(off + 4, ws_end(p, off)));
+    }
+}
+/// the byte-offset bookkeeping of the BrtBundleSh arm, in terms of the record layout
+proof fn lemma_bundle_arm(pl: Seq<u8>, rl32: int, relid_bytes: Seq<u8>, hs: int, name_sub: Seq<u8>)
+    requires
+        pl.len() >= 12 ==> rl32 == le32(pl.subrange(8, pl.len() as int)),
+        relid_bytes == pl.subrange(12, 12 + 2 * rl32),
+        hs == le32(pl),
+        name_sub == pl.subrange(12 + 2 * rl32, pl.len() as int),
+    ensures
+        pl.len() >= 12 && ws_ok(pl, 8) && ws_ok(pl, ws_end(pl, 8)) ==> {
+            &&& rl32 == le32(pl.subrange(8, 12)) && ws_end(pl, 8) == 12 + 2 * rl32
+            &&& ws_text(pl, 8) == dec16(relid_bytes)
+            &&& hs == le32(pl.subrange(0, 4))
+            &&& name_sub.len() >= 4 + 2 * le32(name_sub)
+            &&& ws_text(pl, ws_end(pl, 8)) == dec16(name_sub.subrange(4, 4 + 2 * le32(name_sub)))
+        },
+{
+    if pl.len() >= 12 && ws_ok(pl, 8) && ws_ok(pl, ws_end(pl, 8)) {
+        lemma_le32_sub(pl, 8, pl.len() as int);
+        lemma_le32_sub(pl, 0, pl.len() as int);
+        assert(pl.subrange(0, pl.len() as int) =~= pl);
+        lemma_ws_sub(pl, ws_end(pl, 8), name_sub);
+    }
+}
+/// the byte-offset bookkeeping of the BrtName arm
+proof fn lemma_name_arm(pl: Seq<u8>, b: Seq<u8>, name_sub: Seq<u8>, str_len: int, cce_sub: Seq<u8>, rgce: Seq<u8>)
+    requires
+        b.len() >= pl.len(), b.subrange(0, pl.len() as int) == pl,
+        name_sub == b.subrange(9, pl.len() as int),
+        name_sub.len() >= 4 ==> str_len == 4 + 2 * le32(name_sub),
+        cce_sub == b.skip(9 + str_len),
+        rgce == b.subrange(13 + str_len, 13 + str_len + le32(cce_sub)),
+    ensures
+        name_wf(pl) ==> {
+            &&& name_sub.len() >= 4 + 2 * le32(name_sub)
+            &&& ws_text(pl, 9) == dec16(name_sub.subrange(4, 4 + 2 * le32(name_sub)))
+            &&& rgce == name_rgce(pl)
+        },
+{
+    if name_wf(pl) {
+        assert(name_sub =~= pl.subrange(9, pl.len() as int));
+        lemma_ws_sub(pl, 9, name_sub);
+        let e = ws_end(pl, 9);
+        assert(e == 9 + str_len);
+        assert(cce_sub[0] == pl.subrange(e, e + 4)[0] && cce_sub[1] == pl.subrange(e, e + 4)[1] && cce_sub[2] == pl.subrange(e, e + 4)[2] && cce_sub[3] == pl.subrange(e, e + 4)[3]) by {
+            assert(b.subrange(0, pl.len() as int)[e] == b[e] && b.subrange(0, pl.len() as int)[e + 1] == b[e + 1]
+                && b.subrange(0, pl.len() as int)[e + 2] == b[e + 2] && b.subrange(0, pl.len() as int)[e + 3] == b[e + 3]);
+        }
+        assert(rgce =~= name_rgce(pl)) by {
+            let n = le32(cce_sub);
+            assert forall|j: int| 0 <= j < n implies #[trigger] rgce[j] == name_rgce(pl)[j] by {
+                assert(b.subrange(0, pl.len() as int)[e + 4 + j] == b[e + 4 + j]);
+            }
+        }
+    }
+}
+/// appending one sheet to both lists keeps them in step with the declarations
+proof fn lemma_sheets_push(ms0: Seq<Sheet>, ss0: Seq<(String, String)>, ms: Seq<Sheet>, ss: Seq<(String, String)>, m0: int, n0: int, ds: Seq<SheetDecl>, d: SheetDecl)
+    requires
+        0 <= m0 <= ms0.len(), 0 <= n0 <= ss0.len(),
+        sheets_ok(ms0.skip(m0), ss0.skip(n0), ds),
+        ms.len() == ms0.len() + 1, ms.drop_last() == ms0, ss.len() == ss0.len() + 1, ss.drop_last() == ss0,
+        ms.last().name@ == d.name, ms.last().typ == d.typ, ms.last().visible == d.visible, ss.last().0@ == d.name, ss.last().1@ == d.path,
+    ensures
+        sheets_ok(ms.skip(m0), ss.skip(n0), ds.push(d)), ms.take(m0) == ms0.take(m0), ss.take(n0) == ss0.take(n0),
+{
+    assert(ms =~= ms0.push(ms.last()));
+    assert(ss =~= ss0.push(ss.last()));
+    assert(ms.take(m0) =~= ms0.take(m0));
+    assert(ss.take(n0) =~= ss0.take(n0));
+    let a0 = ms0.skip(m0); let b0 = ss0.skip(n0);
+    let a = ms.skip(m0); let b = ss.skip(n0); let e = ds.push(d);
+    assert(a =~= a0.push(ms.last()));
+    assert(b =~= b0.push(ss.last()));
+    assert forall|i: int| 0 <= i < e.len() implies (#[trigger] a[i]).name@ == e[i].name && a[i].typ == e[i].typ && a[i].visible == e[i].visible by {
+        if i < ds.len() { assert(a[i] == a0[i]); }
+    }
+    assert forall|i: int| 0 <= i < e.len() implies (#[trigger] b[i]).0@ == e[i].name && b[i].1@ == e[i].path by {
+        if i < ds.len() { assert(b[i] == b0[i]); }
+    }
+}
+/// the sheet names after the sheet list has been read: the old ones, then the declared ones
+proof fn lemma_sheet_names(old_ss: Seq<(String, String)>, ms: Seq<Sheet>, ss: Seq<(String, String)>, n0: int, ds: Seq<SheetDecl>)
+    requires n0 == old_ss.len(), ss.len() >= n0, ss.take(n0) == old_ss, sheets_ok(ms, ss.skip(n0), ds),
+    ensures names_of(ss) == names_of(old_ss) + decl_names(ds),
+{
+    let a = names_of(old_ss); let b = decl_names(ds);
+    let c = names_of(ss);
+    assert(c.len() == a.len() + b.len());
+    assert forall|i: int| 0 <= i < c.len() implies #[trigger] c[i] == (a + b)[i] by {
+        if i < n0 { assert(ss.take(n0)[i] == ss[i]); assert(a[i] == old_ss[i].0@); }
+        else {
+            assert(ss.skip(n0)[i - n0] == ss[i]);
+            assert(b[i - n0] == ds[i - n0].name);
+        }
+    }
+    assert(c =~= a + b);
+}
+/// the first cXti chunks of 12 bytes behind the count are the XTI entries of a well-formed BrtExternSheet payload, whatever stale
+/// bytes follow the payload in the buffer
+proof fn lemma_xti_chunks(b: Seq<u8>, pl: Seq<u8>)
+    requires xti_wf(pl), b.len() >= pl.len(), b.subrange(0, pl.len() as int) == pl,
+    ensures
+        chunk_seq(b.subrange(4, b.len() as int), 12).len() >= le32(pl.subrange(0, 4)),
+        forall|k: int| 0 <= k < le32(pl.subrange(0, 4)) ==> (#[trigger] chunk_seq(b.subrange(4, b.len() as int), 12)[k]).len() == 12
+            && chunk_seq(b.subrange(4, b.len() as int), 12)[k].subrange(4, 8) == pl.subrange(4 + 12 * k + 4, 4 + 12 * k + 8),
+{
+    let n = le32(pl.subrange(0, 4));
+    let t = b.subrange(4, b.len() as int);
+    assert(t.len() >= 12 * n);
+    assert((t.len() + 12 - 1) / 12 >= n) by (nonlinear_arith) requires t.len() >= 12 * n, n >= 0;
+    assert forall|k: int| 0 <= k < n implies (#[trigger] chunk_seq(t, 12)[k]).len() == 12
+        && chunk_seq(t, 12)[k].subrange(4, 8) == pl.subrange(4 + 12 * k + 4, 4 + 12 * k + 8) by {
+        assert((k + 1) * 12 <= t.len()) by (nonlinear_arith) requires t.len() >= 12 * n, k < n;
+        assert(k * 12 >= 0) by (nonlinear_arith) requires k >= 0;
+        assert(chunk_seq(t, 12)[k] == t.subrange(k * 12, (k + 1) * 12));
+        assert(t.subrange(k * 12, (k + 1) * 12).subrange(4, 8) =~= pl.subrange(4 + 12 * k + 4, 4 + 12 * k + 8)) by {
+            let x = t.subrange(k * 12, (k + 1) * 12).subrange(4, 8);
+            let y = pl.subrange(4 + 12 * k + 4, 4 + 12 * k + 8);
+            assert forall|j: int| 0 <= j < 4 implies #[trigger] x[j] == y[j] by {
+                assert(b.subrange(0, pl.len() as int)[4 + 12 * k + 4 + j] == b[4 + 12 * k + 4 + j]);
+            }
+        }
+    }
+}
+
+// =====================================================================================================================
+// SPECIFICATION of xl/workbook.bin, second half: BrtExternSheet and BrtName records up to the first "after names" record
+// =====================================================================================================================
+pub open spec fn names_of(ss: Seq<(String, String)>) -> Seq<Seq<char>> { ss.map_values(|p: (String, String)| p.0@) }
+pub open spec fn signed32(v: int) -> int { if v >= 0x8000_0000 { v - 0x1_0000_0000 } else { v } }
+/// what a 3-D reference through an XTI entry is called: its first sheet ([MS-XLSB] 2.5.172 Xti: firstSheet >= 0 is a zero-based index
+/// into the BrtBundleSh records, -2 means the workbook itself, -1 a deleted sheet)
+pub open spec fn xti_name(first: int, shn: Seq<Seq<char>>) -> Seq<char> {
+    if first == -2 { "#ThisWorkbook"@ } else if first == -1 { "#InvalidWorkSheet"@ }
+    else if 0 <= first < shn.len() { shn[first] } else { "#Unknown"@ }
+}
+/// BrtExternSheet ([MS-XLSB] 2.4.667): cXti u32, then cXti x Xti { externalLink u32, firstSheet i32, lastSheet i32 }
+pub open spec fn xti_wf(p: Seq<u8>) -> bool { p.len() >= 4 && p.len() >= 4 + 12 * le32(p.subrange(0, 4)) }
+pub open spec fn xti_names(p: Seq<u8>, shn: Seq<Seq<char>>) -> Seq<Seq<char>> {
+    Seq::new(le32(p.subrange(0, 4)) as nat, |k: int| xti_name(signed32(le32(p.subrange(4 + 12 * k + 4, 4 + 12 * k + 8))), shn))
+}
+/// BrtName ([MS-XLSB] 2.4.711): flags u32 @0, chKey u8 @4, itab u32 @5, name XLWideString @9, then the formula: cce u32, rgce[cce]
+pub open spec fn name_wf(p: Seq<u8>) -> bool {
+    ws_ok(p, 9) && p.len() >= ws_end(p, 9) + 4 && p.len() >= ws_end(p, 9) + 4 + le32(p.subrange(ws_end(p, 9), ws_end(p, 9) + 4))
+}
+pub open spec fn name_rgce(p: Seq<u8>) -> Seq<u8> {
+    p.subrange(ws_end(p, 9) + 4, ws_end(p, 9) + 4 + le32(p.subrange(ws_end(p, 9), ws_end(p, 9) + 4)))
+}
+/// record kinds that can only come after the names (the reader stops at the first of them)
+pub open spec fn after_names(t: int) -> bool {
+    t == 0x009D || t == 0x0225 || t == 0x018D || t == 0x0180 || t == 0x009A || t == 0x0252 || t == 0x0229 || t == 0x009B || t == 0x0084
+}
+pub ghost struct Wb2St { pub names: Seq<(Seq<char>, Seq<char>)>, pub ext: Seq<Seq<char>> }
+pub enum Wb2 {
+    /// an "after names" record reached: the defined names in record order, the extern-sheet names
+    Done { st: Wb2St },
+    Truncated,
+    /// a BrtExternSheet / BrtName shorter than its layout: outside the property's domain
+    Malformed,
+    /// a name whose formula the renderer rejects
+    Rejected,
+}
+/// every BrtName 0x0027 declares one defined name (PtgName tokens index this list by declaration order, so a name occupies its slot
+/// whatever its formula is), BrtExternSheet 0x016A replaces the extern-sheet table, other record kinds are passed over whole
+#[verifier::opaque]
+pub open spec fn wb2(s: Seq<u8>, st: Wb2St, shn: Seq<Seq<char>>) -> Wb2 decreases s.len() {
+    if !rec_ok(s) || rec_rest(s).len() >= s.len() { Wb2::Truncated }
+    else if rec_typ(s) == 0x016A {
+        if !xti_wf(rec_payload(s)) { Wb2::Malformed }
+        else { wb2(rec_rest(s), Wb2St { ext: xti_names(rec_payload(s), shn), ..st }, shn) }
+    }
+    else if rec_typ(s) == 0x0027 {
+        if !name_wf(rec_payload(s)) { Wb2::Malformed }
+        else {
+            match formula_text(name_rgce(rec_payload(s)), st.ext, st.names) {
+                None => Wb2::Rejected,
+                Some(f) => wb2(rec_rest(s), Wb2St { names: st.names.push((ws_text(rec_payload(s), 9), f)), ..st }, shn),
+            }
+        }
+    }
+    else if after_names(rec_typ(s)) { Wb2::Done { st } }
+    else { wb2(rec_rest(s), st, shn) }
+}
+proof fn lemma_wb2_step(s: Seq<u8>, st: Wb2St, shn: Seq<Seq<char>>)
+    ensures wb2(s, st, shn) == (
+        if !rec_ok(s) || rec_rest(s).len() >= s.len() { Wb2::Truncated }
+        else if rec_typ(s) == 0x016A {
+            if !xti_wf(rec_payload(s)) { Wb2::Malformed }
+            else { wb2(rec_rest(s), Wb2St { ext: xti_names(rec_payload(s), shn), ..st }, shn) }
+        }
+        else if rec_typ(s) == 0x0027 {
+            if !name_wf(rec_payload(s)) { Wb2::Malformed }
+            else {
+                match formula_text(name_rgce(rec_payload(s)), st.ext, st.names) {
+                    None => Wb2::Rejected,
+                    Some(f) => wb2(rec_rest(s), Wb2St { names: st.names.push((ws_text(rec_payload(s), 9), f)), ..st }, shn),
+                }
+            }
+        }
+        else if after_names(rec_typ(s)) { Wb2::Done { st } }
+        else { wb2(rec_rest(s), st, shn) }),
+{
+    reveal(wb2);
+}
+/// the whole part: sheets, then names
+pub open spec fn wb_names(bytes: Seq<u8>, is_1904: bool, rels: Map<Vec<u8>, String>, old_names: Seq<Seq<char>>, old_ext: Seq<Seq<char>>) -> Wb2 {
+    match wb1(bytes, WbSt { is_1904, sheets: Seq::empty() }, rels) {
+        Wb1::Done { st, rest } => wb2(rest, Wb2St { names: Seq::empty(), ext: old_ext }, old_names + decl_names(st.sheets)),
+        Wb1::Truncated => Wb2::Truncated,
+        Wb1::Malformed => Wb2::Malformed,
+        Wb1::Rejected => Wb2::Rejected,
+    }
 }
 
 pub open spec fn strs(v: Seq<String>) -> Seq<Seq<char>> { v.map_values(|s: String| s@) }
@@ -472,8 +709,18 @@ pub open spec fn strs(v: Seq<String>) -> Seq<Seq<char>> { v.map_values(|s: Strin
             && final(self).metadata.sheets@.take(old(self).metadata.sheets@.len() as int) == old(self).metadata.sheets@
             && final(self).sheets@.len() >= old(self).sheets@.len()
             && final(self).sheets@.take(old(self).sheets@.len() as int) == old(self).sheets@,
-        //# C16.sheet_list_truncated_is_error
-        ({ let w = wb1(part_bytes(old(self).zip, wb_path())->Some_0, WbSt { is_1904: old(self).is_1904, sheets: Seq::empty() }, relationships@);
+        // defined names: one entry per BrtName record, in record order (C14: PtgName tokens index this list by declaration order)
+        //# C14,C16.names_one_per_record
+        ({ let w = wb_names(part_bytes(old(self).zip, wb_path())->Some_0, old(self).is_1904, relationships@, names_of(old(self).sheets@), strs(old(self).extern_sheets@));
+           part_bytes(old(self).zip, wb_path()) is Some && w is Done && r is Ok ==> pairs(final(self).metadata.names@) == w->st.names }),
+        //# C14.extern_sheets_by_first_sheet
+        ({ let w = wb_names(part_bytes(old(self).zip, wb_path())->Some_0, old(self).is_1904, relationships@, names_of(old(self).sheets@), strs(old(self).extern_sheets@));
+           part_bytes(old(self).zip, wb_path()) is Some && w is Done && r is Ok ==> strs(final(self).extern_sheets@) == w->st.ext }),
+        //# C16.wellformed_workbook_opens
+        ({ let w = wb_names(part_bytes(old(self).zip, wb_path())->Some_0, old(self).is_1904, relationships@, names_of(old(self).sheets@), strs(old(self).extern_sheets@));
+           part_bytes(old(self).zip, wb_path()) is Some && w is Done ==> r is Ok }),
+        //# C16.truncated_or_rejected_is_error
+        ({ let w = wb_names(part_bytes(old(self).zip, wb_path())->Some_0, old(self).is_1904, relationships@, names_of(old(self).sheets@), strs(old(self).extern_sheets@));
            part_bytes(old(self).zip, wb_path()) is Some && (w is Truncated || w is Rejected) ==> r is Err }),
         //# C07.workbook_read_frame
         final(self).strings@ == old(self).strings@ && final(self).formats@ == old(self).formats@,
@@ -485,6 +732,8 @@ pub open spec fn strs(v: Seq<String>) -> Seq<Seq<char>> { v.map_values(|s: Strin
         let ghost mut cur = s0;
         let ghost m0 = self.metadata.sheets@.len() as int;
         let ghost n0 = self.sheets@.len() as int;
+        let ghost oldn = names_of(self.sheets@);
+        let ghost olde = strs(self.extern_sheets@);
         proof {
             assert(self.metadata.sheets@.skip(m0) =~= Seq::<Sheet>::empty());
             assert(self.sheets@.skip(n0) =~= Seq::<(String, String)>::empty());
@@ -499,16 +748,23 @@ pub open spec fn strs(v: Seq<String>) -> Seq<Seq<char>> { v.map_values(|s: Strin
                 buf@.len() == 0,
                 wb1(s0, st0, rels) is Malformed || wb1(s0, st0, rels) == wb1(cur, st, rels),
             invariant
-                self.is_1904 == st.is_1904,
-                sheets_ok(self.metadata.sheets@.skip(m0), self.sheets@.skip(n0), st.sheets),
+                wb1(s0, st0, rels) is Malformed || self.is_1904 == st.is_1904,
+                wb1(s0, st0, rels) is Malformed || sheets_ok(self.metadata.sheets@.skip(m0), self.sheets@.skip(n0), st.sheets),
                 self.metadata.sheets@.len() >= m0, self.metadata.sheets@.take(m0) == old(self).metadata.sheets@,
                 self.sheets@.len() >= n0, self.sheets@.take(n0) == old(self).sheets@,
                 m0 == old(self).metadata.sheets@.len(), n0 == old(self).sheets@.len(),
                 self.strings@ == old(self).strings@, self.formats@ == old(self).formats@,
                 self.extern_sheets@ == old(self).extern_sheets@,
                 rels == relationships@,
+                oldn == names_of(old(self).sheets@), olde == strs(old(self).extern_sheets@),
+                wb_names(s0, st0.is_1904, rels, oldn, olde) is Done ==> wb1(s0, st0, rels) is Done,
+                wb1(s0, st0, rels) is Truncated ==> wb_names(s0, st0.is_1904, rels, oldn, olde) is Truncated,
+                wb1(s0, st0, rels) is Rejected ==> wb_names(s0, st0.is_1904, rels, oldn, olde) is Rejected,
+                wb1(s0, st0, rels) is Malformed ==> wb_names(s0, st0.is_1904, rels, oldn, olde) is Malformed,
+                s0 == part_bytes(old(self).zip, wb_path())->Some_0, part_bytes(old(self).zip, wb_path()) is Some,
+                st0 == (WbSt { is_1904: old(self).is_1904, sheets: Seq::empty() }),
             ensures
-                wb1(s0, st0, rels) is Malformed || wb1(s0, st0, rels) is Truncated || wb1(s0, st0, rels) == (Wb1::Done { st, rest: cur }),
+                wb1(s0, st0, rels) is Malformed || wb1(s0, st0, rels) == (Wb1::Done { st, rest: cur }),
                 cur == iter.rem(),
             decreases iter.rem().len(),
 //@@ before /match iter\.read_type\(\)\? \{/
@@ -535,27 +791,36 @@ pub open spec fn strs(v: Seq<String>) -> Seq<Seq<char>> { v.map_values(|s: Strin
                         assert(buf@ =~= pl);
                         cur = rec_rest(h);
                     }
-//@@ before /let name = wide_str\(&buf\[12 \+ rel_len/
+//@@ after /let rel_len = read_u32\(&buf\[8\.\.len\]\);/
+                    let ghost rl32 = rel_len as int;
+//@@ after /let relid = &buf\[12\.\.12 \+ rel_len\];/
+                        let ghost relid_bytes = relid@;
+//@@ before /let visible = match read_u32\(&buf\)/
+                        let ghost hs = le32(buf@);
                         proof {
-                            axiom_cow_str(); axiom_cow_owned_str_all(); axiom_str_ext();
+                            axiom_cow_str(); axiom_cow_owned_str_all();
+                            lemma_bundle_arm(pl, rl32, relid_bytes, hs, pl.subrange(12 + 2 * rl32, pl.len() as int));
                         }
+//@@ before /return Err\(XlsbError::Unrecognized \{\s*typ: "BoundSheet8:hsState"/
+                                proof {
+                                    // an hsState other than 0, 1, 2 is rejected -- and only such a state
+                                    //# C16.sheet_state_rejected_iff_unknown
+                                    assert(bundle_wf(pl, rels) ==> hs_visible(le32(pl.subrange(0, 4))) is None);
+                                }
+//@@ before /let typ = match /
+                        proof { axiom_str_ext("worksheets"); axiom_str_ext("chartsheets"); axiom_str_ext("dialogsheets"); }
+//@@ before /return Err\(XlsbError::Unrecognized \{\s*typ: "BoundSheet8:dt"/
+                                // a sheet whose part lies in none of the folders the format defines is rejected -- and only such a sheet
+                                //# C16.sheet_kind_rejected_iff_unknown_folder
+                                assert(bundle_wf(pl, rels) ==> folder_type(path@) is None);
 //@@ before /self\.metadata\.sheets\.push\(Sheet/
                         let ghost ms_before = self.metadata.sheets@;
                         let ghost ss_before = self.sheets@;
                         proof {
-                            if pl.len() >= 12 {
-                                assert(pl.subrange(8, len as int).subrange(0, 4) =~= pl.subrange(8, 12));
-                                assert(buf@.subrange(0, 4) =~= pl.subrange(0, 4));
-                            }
                             if bundle_wf(pl, rels) {
-                                let e = ws_end(pl, 8);
-                                assert(e == 12 + rel_len);
-                                assert(buf@.subrange(12, 12 + rel_len as int) =~= pl.subrange(12, e));
-                                assert(pl.subrange(e, len as int).subrange(0, 4) =~= pl.subrange(e, e + 4));
-                                assert(pl.subrange(e, len as int).subrange(4, 4 + 2 * le32(pl.subrange(e, e + 4))) =~= pl.subrange(e + 4, ws_end(pl, e)));
-                                // one sheet per BrtBundleSh, with the declared name, visibility, part path and kind
+                                // name, visibility, part path and kind of the declared sheet
                                 //# C16.bundle_sheet_name
-                                assert(cow_chars(name) == ws_text(pl, e));
+                                assert(cow_chars(name) == ws_text(pl, ws_end(pl, 8)));
                                 //# C16.bundle_sheet_visibility
                                 assert(hs_visible(le32(pl.subrange(0, 4))) == Some(visible));
                                 //# C16.bundle_sheet_path
@@ -566,22 +831,19 @@ pub open spec fn strs(v: Seq<String>) -> Seq<Seq<char>> { v.map_values(|s: Strin
                         }
 //@@ after /self\.sheets\.push\(\(name\.into_owned\(\), path\)\);/
                         proof {
+                            assert(self.metadata.sheets@.drop_last() =~= ms_before);
+                            assert(self.sheets@.drop_last() =~= ss_before);
                             if bundle_wf(pl, rels) {
-                                let d = bundle_decl(pl, rels)->Some_0;
                                 assert(bundle_decl(pl, rels) is Some);
-                                let ds = st.sheets.push(d);
-                                assert(self.metadata.sheets@.skip(m0) =~= ms_before.skip(m0).push(self.metadata.sheets@.last()));
-                                assert(self.sheets@.skip(n0) =~= ss_before.skip(n0).push(self.sheets@.last()));
-                                assert(self.metadata.sheets@.take(m0) =~= ms_before.take(m0));
-                                assert(self.sheets@.take(n0) =~= ss_before.take(n0));
+                                let d = bundle_decl(pl, rels)->Some_0;
+                                lemma_sheets_push(ms_before, ss_before, self.metadata.sheets@, self.sheets@, m0, n0, st.sheets, d);
+                                // one list entry per BrtBundleSh, appended in record order
                                 //# C16.bundle_sheet_appended_in_order
-                                assert(sheets_ok(self.metadata.sheets@.skip(m0), self.sheets@.skip(n0), ds));
-                                st = WbSt { sheets: ds, ..st };
+                                assert(sheets_ok(self.metadata.sheets@.skip(m0), self.sheets@.skip(n0), st.sheets.push(d)));
+                                st = WbSt { sheets: st.sheets.push(d), ..st };
                             } else {
                                 assert(self.metadata.sheets@.take(m0) =~= ms_before.take(m0));
                                 assert(self.sheets@.take(n0) =~= ss_before.take(n0));
-                                assert(self.metadata.sheets@.skip(m0) =~= ms_before.skip(m0).push(self.metadata.sheets@.last()));
-                                assert(self.sheets@.skip(n0) =~= ss_before.skip(n0).push(self.sheets@.last()));
                             }
                         }
 //@@ before /break,/
@@ -590,11 +852,100 @@ pub open spec fn strs(v: Seq<String>) -> Seq<Seq<char>> { v.map_values(|s: Strin
                     cur = rec_rest(h);
                 }
                 //# C03.end_bundle_record_skipped_whole
-                assert(iter.rem() == rec_rest(h));
+                assert(rec_ok(h) && iter.rem() == rec_rest(h));
 //@@ after /=> break/
  }
+//@@ after /let mut defined_names = Vec::new\(\);/
+        let ghost c1 = cur;
+        let ghost shn = names_of(self.sheets@);
+        let ghost st2_0 = Wb2St { names: Seq::empty(), ext: strs(self.extern_sheets@) };
+        let ghost mut st2 = st2_0;
+        proof {
+            assert(pairs(defined_names@) =~= Seq::<(Seq<char>, Seq<char>)>::empty());
+            if !(wb1(s0, st0, rels) is Malformed) { lemma_sheet_names(old(self).sheets@, self.metadata.sheets@.skip(m0), self.sheets@, n0, st.sheets); }
+        }
 //@@ loop 1
+            invariant
+                // same framing rule in the second half of the part
+                //# C03.unknown_records_skipped_whole_after_sheets
+                cur == iter.rem(),
+                wb2(c1, st2_0, shn) is Malformed || wb2(c1, st2_0, shn) == wb2(cur, st2, shn),
+                wb2(c1, st2_0, shn) is Malformed || pairs(defined_names@) == st2.names,
+                wb2(c1, st2_0, shn) is Malformed || strs(self.extern_sheets@) == st2.ext,
+                names_of(self.sheets@) == shn,
+                wb1(s0, st0, rels) is Malformed || shn == oldn + decl_names(st.sheets),
+                st2_0 == (Wb2St { names: Seq::empty(), ext: olde }),
+                wb1(s0, st0, rels) is Malformed || wb1(s0, st0, rels) == (Wb1::Done { st, rest: c1 }),
+                wb1(s0, st0, rels) is Malformed ==> wb_names(s0, st0.is_1904, rels, oldn, olde) is Malformed,
+                wb1(s0, st0, rels) is Malformed || wb_names(s0, st0.is_1904, rels, oldn, olde) == wb2(c1, st2_0, shn),
+                s0 == part_bytes(old(self).zip, wb_path())->Some_0, part_bytes(old(self).zip, wb_path()) is Some,
+                st0 == (WbSt { is_1904: old(self).is_1904, sheets: Seq::empty() }),
+                oldn == names_of(old(self).sheets@), olde == strs(old(self).extern_sheets@),
+                wb1(s0, st0, rels) is Malformed || self.is_1904 == st.is_1904,
+                wb1(s0, st0, rels) is Malformed || sheets_ok(self.metadata.sheets@.skip(m0), self.sheets@.skip(n0), st.sheets),
+                self.metadata.sheets@.len() >= m0, self.metadata.sheets@.take(m0) == old(self).metadata.sheets@,
+                self.sheets@.len() >= n0, self.sheets@.take(n0) == old(self).sheets@,
+                m0 == old(self).metadata.sheets@.len(), n0 == old(self).sheets@.len(),
+                self.strings@ == old(self).strings@, self.formats@ == old(self).formats@,
+                rels == relationships@,
             decreases iter.rem().len(),
+//@@ after /let typ = iter\.read_type\(\)\?;/
+            let ghost h = cur;
+            proof { lemma_wb2_step(h, st2, shn); lemma_rec_total(h); }
+//@@ after /let _len = iter\.fill_buffer\(&mut buf\)\?;/
+                    let ghost pl = rec_payload(h);
+                    proof {
+                        lemma_rec_read(h);
+                        assert(buf@.subrange(0, _len as int) =~= pl);
+                        cur = rec_rest(h);
+                    }
+//@@ before /self\.extern_sheets\.reserve\(cxti\);/
+                        // allocation driven by file data (C06): capped by the guard
+                        //# C06.extern_reserve_capped
+                        assert(cxti < 1_000_000);
+//@@ closure 0
+    -> (res: String)
+        ensures xti@.len() >= 8 ==> res@ == xti_name(signed32(le32(xti@.subrange(4, 8))), names_of(sheets@))
+//@@ after /self\.extern_sheets = extern_sheets;/
+                    proof {
+                        if xti_wf(pl) {
+                            assert(buf@.subrange(0, 4) =~= pl.subrange(0, 4));
+                            lemma_xti_chunks(buf@, pl);
+                            let got = strs(self.extern_sheets@); let want = xti_names(pl, shn);
+                            assert(got.len() == want.len());
+                            assert forall|k: int| 0 <= k < want.len() implies #[trigger] got[k] == want[k] by {
+                                assert(chunk_seq(buf@.subrange(4, buf@.len() as int), 12)[k].len() == 12);
+                                assert(got[k] == self.extern_sheets@[k]@);
+                            }
+                            // entry k of the extern-sheet table is the name of sheet firstSheet of the k-th XTI
+                            //# C14.extern_sheet_entries
+                            assert(got =~= want);
+                            st2 = Wb2St { ext: xti_names(pl, shn), ..st2 };
+                        }
+                    }
+//@@ after /let len = iter\.fill_buffer\(&mut buf\)\?;/#1of2
+                    let ghost pl = rec_payload(h);
+                    proof {
+                        lemma_rec_read(h);
+                        assert(buf@.subrange(0, len as int) =~= pl);
+                        cur = rec_rest(h);
+                        axiom_cow_owned_str_all();
+                    }
+//@@ after /let mut str_len = 0;/
+                    let ghost name_sub = buf@.subrange(9, len as int);
+                    let ghost dn_before = defined_names@;
+//@@ after /defined_names\.push\(\(name, formula\)\);/
+                    proof {
+                        lemma_name_arm(pl, buf@, name_sub, str_len as int, buf@.skip(9 + str_len as int), rgce@);
+                        if name_wf(pl) && !(wb2(c1, st2_0, shn) is Malformed) {
+                            assert(defined_names@ =~= dn_before.push(defined_names@.last()));
+                            assert(pairs(defined_names@) =~= pairs(dn_before).push((defined_names@.last().0@, defined_names@.last().1@)));
+                            // one entry per BrtName record, whatever its formula (an empty formula still occupies its slot)
+                            //# C14.name_entry_per_record
+                            assert(pairs(defined_names@) =~= st2.names.push((ws_text(pl, 9), formula_text(name_rgce(pl), st2.ext, st2.names)->Some_0)));
+                            st2 = Wb2St { names: st2.names.push((ws_text(pl, 9), formula_text(name_rgce(pl), st2.ext, st2.names)->Some_0)), ..st2 };
+                        }
+                    }
 //@@ replace /path\.split\('.'\)\.nth\(1\)/ no assume_specification for provided trait methods (Iterator::nth of str::Split): the expression is moved into a trusted wrapper whose body is the same expression
 verif_split_nth(&path, '/', 1)
 //@@ replace /format!\("xl.\{\}", / Verus knows nothing of the String `format!` builds: the expression is moved into a trusted wrapper whose body is the same expression
